@@ -29,8 +29,17 @@ class ModuleInfo(object):
             for a in node.names:
                 self.imports[a.asname or a.name.split(".")[0]] = (a.name if a.asname else a.name.split(".")[0], None)
         elif isinstance(node, ast.ImportFrom):
+            modname = node.module
+            if node.level:
+                # relative import: resolve against this module's package
+                parts = self.name.split(".")
+                if os.path.basename(self.path) != "__init__.py":
+                    parts = parts[:-1]
+                if node.level > 1:
+                    parts = parts[:len(parts) - (node.level - 1)]
+                modname = ".".join(parts + ([node.module] if node.module else []))
             for a in node.names:
-                self.imports[a.asname or a.name] = (node.module, a.name)
+                self.imports[a.asname or a.name] = (modname, a.name)
         elif isinstance(node, (ast.Assign, ast.AugAssign, ast.AnnAssign)):
             targets = node.targets if isinstance(node, ast.Assign) else [node.target]
             for t in targets:
@@ -94,6 +103,9 @@ def find_function(target):
         mi = load_module(name)
     if mi is None:
         raise KeyError("no such file: %s" % rel)
+    fragment = None
+    if "@" in qual:
+        qual, fragment = qual.split("@", 1)
     parts = qual.split(".")
     scope_body, cls, node = mi.tree.body, None, None
     for i, part in enumerate(parts):
@@ -108,7 +120,47 @@ def find_function(target):
             cls = found
         node = found
         scope_body = found.body
+    if fragment is not None:
+        node = extract_fragment(mi, node, fragment)
     return mi, node, cls
+
+
+def extract_fragment(mi, fnode, fragment):
+    """'while:0' / 'for:2' -> the n-th loop statement (source order, nested function bodies excluded) of the function, returned
+    as a marker object; the contract turns it into a function whose parameters are the fragment's free variables"""
+    kind, _, ordn = fragment.partition(":")
+    cls = {"while": ast.While, "for": ast.For, "forbody": ast.For}[kind]
+    found = []
+    todo = list(fnode.body)
+    allnodes = []
+    while todo:
+        n = todo.pop(0)
+        allnodes.append(n)
+        kids = [c for c in ast.iter_child_nodes(n) if not isinstance(c, (ast.FunctionDef, ast.Lambda, ast.ClassDef))]
+        todo = kids + todo
+    found = sorted([n for n in allnodes if isinstance(n, cls)], key=lambda n: (n.lineno, n.col_offset))
+    k = int(ordn or 0)
+    if k >= len(found):
+        raise KeyError("no %s loop number %d in %s" % (kind, k, fnode.name))
+    body = [found[k]]
+    if kind == "forbody":
+        # ONE iteration of the loop: its body, run once (so that `continue` / `break` in it end the iteration); the loop
+        # variables are parameters of the fragment
+        once = ast.For(target=ast.Name(id="__once", ctx=ast.Store()), iter=ast.Tuple(elts=[ast.Constant(value=None)], ctx=ast.Load()),
+                       body=list(found[k].body), orelse=[], type_comment=None)
+        ast.copy_location(once, found[k])
+        for sub_ in (once.target, once.iter, once.iter.elts[0]):
+            ast.copy_location(sub_, found[k])
+        once.end_lineno, once.end_col_offset = found[k].end_lineno, found[k].end_col_offset
+        body = [once]
+    frag = ast.FunctionDef(name="%s__%s%d" % (fnode.name, kind, k), args=ast.arguments(posonlyargs=[], args=[], kwonlyargs=[], kw_defaults=[], defaults=[]),
+                           body=body, decorator_list=[], returns=None, type_comment=None, type_params=[])
+    ast.copy_location(frag, found[k])
+    frag.end_lineno = found[k].end_lineno
+    frag.end_col_offset = found[k].end_col_offset
+    frag.is_fragment = True
+    frag.enclosing = fnode.name
+    return frag
 
 
 def _iter_defs(body):
